@@ -182,6 +182,50 @@ def roi_scale(spec):
     return Fraction(p)
 
 
+def pow2_ge(m):
+    """smallest power of two >= m (Fraction; m > 0), also below 1."""
+    p = Fraction(1)
+    while p < m:
+        p *= 2
+    while p / 2 >= m:
+        p /= 2
+    return p
+
+
+def roi_size(spec):
+    """The region's OWN scale: a power of two >= its largest extent (0 for a point-like region).  The
+    recorded band is 1e-6 * this -- never relative to the distance from the origin, never an absolute
+    constant; the driver adds the rounding bound 2^-44 * (|centre| + |p| + size) itself."""
+    k = spec[0]
+    if k == "rect":
+        ext = max(abs(frac(spec[2]) - frac(spec[1])), abs(frac(spec[4]) - frac(spec[3])))
+    elif k == "circle":
+        ext = abs(frac(spec[3]))
+    elif k == "ellipse":
+        ext = max(abs(frac(spec[3])), abs(frac(spec[4])))
+    elif k == "annulus":
+        ext = max(abs(frac(spec[3])), abs(frac(spec[4])))
+    elif k == "range":
+        ext = abs(frac(spec[3]) - frac(spec[2]))
+    elif k == "poly":
+        xs = [frac(v[0]) for v in spec[1:]]
+        ys = [frac(v[1]) for v in spec[1:]]
+        ext = max(max(xs) - min(xs), max(ys) - min(ys)) if xs else Fraction(0)
+    else:
+        ext = Fraction(0)
+    return pow2_ge(ext) if ext > 0 else Fraction(0)
+
+
+def band_eps(spec):
+    """(eps sent to the driver, float eps used to place boundary points)."""
+    size = roi_size(spec)
+    eps = size * Fraction(1, 10 ** 6)
+    if eps > 0:
+        return eps, float(eps)
+    m = float(roi_scale(spec))
+    return eps, 1e-12 * m
+
+
 def roi_extent(spec):
     """(cx, cy, radius) of a disc that contains the region (floats; only used to place test points)."""
     k = spec[0]
@@ -205,11 +249,12 @@ def roi_extent(spec):
     return 0.0, 0.0, 1.0
 
 
-def boundary_points(spec, n, rng, eps):
+def boundary_points(spec, n, rng, eps, offs=None):
     """floats on / just off the boundary (any float is an exact rational input)."""
     k = spec[0]
     out = []
-    offs = [0.0, eps / 10, -eps / 10, 5 * eps, -5 * eps, 50 * eps, -50 * eps, 1000 * eps, -1000 * eps]
+    if offs is None:
+        offs = [0.0, eps / 10, -eps / 10, 5 * eps, -5 * eps, 50 * eps, -50 * eps, 1000 * eps, -1000 * eps]
     for _ in range(n):
         d = rng.choice(offs)
         if k == "rect":
@@ -422,6 +467,388 @@ def sample_points(spec, rng, mode, n_grid=6, n_bnd=12, n_rand=10, eps=0.0, speci
     return pts
 
 
+# ------------------------------------------------------------------------------------------
+# magnitude / offset ladder (round 2): region sizes 2^-40 .. 2^40, centres 0, +-2^-30, +-1, +-2^21,
+# +-2^31, +-2^50 (+ a jitter of eighths of the size, so that coordinates carry many significant bits),
+# thin and fat aspect ratios.  Everything is an exact dyadic, chosen so that every parameter and every
+# lattice point is exactly representable; test points are placed at distances proportional to the
+# LOCAL scale (the size of the region), never to the distance from the origin.
+# ------------------------------------------------------------------------------------------
+
+LAD_SIZE_EXP = (-40, -30, -20, -10, -3, 0, 3, 10, 21, 31, 40)
+LAD_CENTRES = [Fraction(0)] + [sg * Fraction(2) ** e for e in (-30, 0, 21, 31, 50) for sg in (1, -1)]
+
+
+def rep(v):
+    """is the rational exactly representable as a double?"""
+    return Fraction(float(v)) == v
+
+
+def lad_frame(rng, exact, iso=False, ratio=None, max_aspect=None):
+    """-> (cx, cy, Sx, Sy): centre from the ladder (|centre| <= 2^ratio * smallest size, so that the
+    region stays resolvable in doubles) and the size along each axis (aspect 1, or thin along one axis)."""
+    e = rng.choice(LAD_SIZE_EXP)
+    aspects = [0, 0, 0, 4, 12] if exact else [0, 0, 0, 10, 20, 30]
+    if max_aspect is not None:
+        aspects = [a for a in aspects if a <= max_aspect]
+    a = 0 if iso else rng.choice(aspects)
+    S = Fraction(2) ** e
+    Sx, Sy = (S, S / 2 ** a) if rng.random() < 0.5 else (S / 2 ** a, S)
+    R = ratio if ratio is not None else (40 if exact else 36)
+    lim = min(Sx, Sy) * 2 ** R
+    cands = [c for c in LAD_CENTRES if abs(c) <= lim]
+    cands = cands + cands[-4:]               # the largest admissible offsets twice as often
+    cx = rng.choice(cands) + Fraction(rng.randint(-4, 4), 8) * Sx
+    cy = rng.choice(cands) + Fraction(rng.randint(-4, 4), 8) * Sy
+    return cx, cy, Sx, Sy
+
+
+QUARTER_ROTS = [[1, 0, 0], [0, 1, 0], [-1, 0, 0], [0, -1, 0]]
+
+
+def lad_region(rng, kind, frame, exact, rot=None):
+    """-> (spec, special) : region centred on the frame centre, extents = eighths of the frame sizes;
+    `special` = lattice points (in sixteenths of the sizes, relative to the centre) on the boundary."""
+    cx, cy, Sx, Sy = frame
+    sp = []
+    if kind == "rect":
+        jw, jh = 2 * rng.randint(1, 8), 2 * rng.randint(1, 8)     # width = jw/8 * Sx
+        w, h = Fraction(jw, 8) * Sx, Fraction(jh, 8) * Sy
+        rot = rot or (rng.choice(QUARTER_ROTS) if exact else pick_rot(rng))
+        spec = ["rect", qx(cx - w / 2), qx(cx + w / 2), qx(cy - h / 2), qx(cy + h / 2)] + rot
+        a, b = (jw, jh) if rot[1] == 0 else (jh * Sy / Sx, jw * Sx / Sy)   # half extents in sixteenths after a quarter turn
+        if Fraction(a).denominator == 1 and Fraction(b).denominator == 1 and max(a, b) <= 64:
+            a, b = int(a), int(b)
+            sp = [(a, 0), (-a, 0), (0, b), (0, -b), (a, b), (-a, -b), (a, -b), (a, b - 1), (a - 1, b)]
+    elif kind == "circle":
+        j = rng.choice([1, 2, 4, 5, 8, 10, 16])
+        spec = ["circle", qx(cx), qx(cy), qx(Fraction(j, 8) * Sx)]
+        sp = [(2 * j, 0), (-2 * j, 0), (0, 2 * j), (0, -2 * j)]
+        if j % 5 == 0:
+            q = j // 5
+            sp += [(6 * q, 8 * q), (-8 * q, 6 * q), (6 * q, -8 * q)]
+    elif kind == "annulus":
+        ji = rng.choice([1, 2, 4, 5, 10])
+        if exact:
+            jo = ji + rng.choice([1, 2, 5, 6])
+            ro = Fraction(jo, 8) * Sx
+        else:
+            ro = Fraction(ji, 8) * Sx + rng.choice([Fraction(1, 8), Fraction(1, 2), Fraction(1, 2 ** 12), Fraction(1, 2 ** 24)]) * Sx
+            jo = None
+        spec = ["annulus", qx(cx), qx(cy), qx(Fraction(ji, 8) * Sx), qx(ro)]
+        sp = [(2 * ji, 0), (0, -2 * ji)]
+        if jo is not None:
+            sp += [(2 * jo, 0), (0, 2 * jo), (-2 * jo, 0)]
+            for j in (ji, jo):
+                if j % 5 == 0:
+                    sp += [(6 * j // 5, 8 * j // 5), (-8 * j // 5, -6 * j // 5)]
+    elif kind == "ellipse":
+        if exact:
+            ix, iy = rng.choice([-1, 0, 1]), rng.choice([-1, 0, 1])
+            rx, ry = Sx * Fraction(2) ** ix, Sy * Fraction(2) ** iy
+            rot = rng.choice(QUARTER_ROTS)
+            a, b = (rx / Sx * 16, ry / Sy * 16) if rot[1] == 0 else (ry / Sx * 16, rx / Sy * 16)
+            if Fraction(a).denominator == 1 and Fraction(b).denominator == 1 and max(a, b) <= 64:
+                a, b = int(a), int(b)
+                sp = [(a, 0), (-a, 0), (0, b), (0, -b)]
+                if a % 5 == 0 and b % 5 == 0:
+                    sp += [(3 * a // 5, 4 * b // 5), (-4 * a // 5, 3 * b // 5)]
+        else:
+            rx, ry = Fraction(rng.randint(1, 16), 8) * Sx, Fraction(rng.randint(1, 16), 8) * Sy
+            rot = rot or pick_rot(rng)
+        spec = ["ellipse", qx(cx), qx(cy), qx(rx), qx(ry)] + rot
+    elif kind == "range":
+        ori = rng.choice("xy")
+        c0, S0 = (cx, Sx) if ori == "x" else (cy, Sy)
+        jw = 2 * rng.randint(1, 8)
+        spec = ["range", ori, qx(c0 - Fraction(jw, 16) * S0), qx(c0 + Fraction(jw, 16) * S0)]
+        sp = [(jw, jw), (-jw, -jw), (jw, 0), (0, -jw)]
+    elif kind == "poly":
+        names = [n for n in sorted(POLY_SHAPES) if not (exact and n == "sliver")]
+        if rng.random() < 0.7:
+            ks = [(2 * Fraction(x) - 6, 2 * Fraction(y) - 6) for x, y in POLY_SHAPES[rng.choice(names)]]
+        else:
+            ks = [(Fraction(rng.randint(-12, 12)), Fraction(rng.randint(-12, 12))) for _ in range(rng.randint(3, 7))]
+            if rng.random() < 0.3:
+                ks.append(ks[0])
+        spec = ["poly"] + [[qx(cx + kx * Sx / 16), qx(cy + ky * Sy / 16)] for kx, ky in ks]
+        sp = [(int(kx), int(ky)) for kx, ky in ks if kx.denominator == 1 and ky.denominator == 1]
+        for (a, b), (c, d) in zip(ks, ks[1:] + ks[:1]):
+            m = ((a + c) / 2, (b + d) / 2)
+            if m[0].denominator == 1 and m[1].denominator == 1:
+                sp.append((int(m[0]), int(m[1])))
+    else:
+        raise ValueError(kind)
+    return spec, sp
+
+
+def spec_rep(spec):
+    """every number of the description is exactly the double the implementation receives."""
+    ok = []
+
+    def walk(e):
+        if isinstance(e, list) and e and e[0] == "q":
+            ok.append(rep(Fraction(e[1], e[2])))
+        elif isinstance(e, list):
+            for x in e:
+                walk(x)
+        elif isinstance(e, int):
+            ok.append(abs(e) < 2 ** 1000 and rep(Fraction(e)))
+    walk(spec[:-3] if spec[0] in ("rect", "ellipse") else spec)
+    return all(ok)
+
+
+def lad_points_exact(rng, frame, special):
+    """lattice points (sixteenths of the sizes about the centre): coarse grid, random, on and next to the
+    boundary, far.  Only exactly representable ones are kept."""
+    cx, cy, Sx, Sy = frame
+    ks = []
+    m = rng.choice([4, 5, 7])
+    for j in range(m):
+        for i in range(m):
+            ks.append((round(-20 + 40 * i / (m - 1)), round(-20 + 40 * j / (m - 1))))
+    for _ in range(8):
+        ks.append((rng.randint(-24, 24), rng.randint(-24, 24)))
+    for kx, ky in special:
+        ks.append((kx, ky))
+        if rng.random() < 0.6:
+            ks.append((kx + rng.choice([-1, 1]), ky))
+        if rng.random() < 0.6:
+            ks.append((kx, ky + rng.choice([-1, 1])))
+    ks += [(0, 0), (1024, 0), (0, -1024), (-4096, 4096)]
+    pts = []
+    for kx, ky in ks:
+        x, y = cx + kx * Sx / 16, cy + ky * Sy / 16
+        if rep(x) and rep(y):
+            pts.append((float(x), float(y)))
+    return pts
+
+
+def lad_offsets(frame):
+    """signed distances from the boundary: size * 2^-j for both sizes -- from well inside / outside
+    (size/8) down to below the rounding error."""
+    _, _, Sx, Sy = frame
+    offs = [0.0]
+    for S in {float(max(Sx, Sy)), float(min(Sx, Sy))}:
+        for j in (3, 8, 14, 20, 24, 28, 32, 36, 40, 44, 48, 52):
+            offs += [S * 2.0 ** -j, -S * 2.0 ** -j]
+    return offs
+
+
+def lad_points_band(rng, spec, frame, n_bnd=24, n_rand=14, specials=True):
+    """arbitrary doubles: well inside / outside at distances proportional to the local size (anisotropic
+    for thin regions), and points at size * 2^-j from the boundary."""
+    cx, cy, Sx, Sy = [float(v) for v in frame]
+    R = max(Sx, Sy)
+    pts = [(cx, cy)]
+    for _ in range(n_rand):
+        if spec[0] in ("rect", "ellipse") and not is_quarter(spec[5:8]) or rng.random() < 0.3:
+            pts.append((cx + rng.uniform(-1.6, 1.6) * R, cy + rng.uniform(-1.6, 1.6) * R))
+        else:
+            pts.append((cx + rng.uniform(-1.6, 1.6) * Sx, cy + rng.uniform(-1.6, 1.6) * Sy))
+    pts += boundary_points(spec, n_bnd, rng, None, offs=lad_offsets(frame))
+    if specials:
+        pts += [(cx + 2.0 ** 20 * R, cy), (cx, cy - 2.0 ** 30 * R), (float("nan"), cy), (cx, float("inf"))]
+    return pts
+
+
+LAD_KINDS = ("rect", "ellipse", "poly", "circle", "annulus", "range", "rect", "poly", "ellipse")
+
+
+def lad_contains_case(rng, kind, exact, rot=None):
+    iso = kind in ("circle", "annulus")
+    frame = lad_frame(rng, exact, iso=iso)
+    spec, special = lad_region(rng, kind, frame, exact, rot=rot)
+    if not spec_rep(spec):
+        return None
+    if exact:
+        pts = lad_points_exact(rng, frame, special)
+        if rng.random() < 0.3:
+            pts += [(float("nan"), float(frame[1])), (float(frame[0]), float("-inf"))]
+    else:
+        pts = lad_points_band(rng, spec, frame, specials=rng.random() < 0.5)
+    layouts = ["c", "c", "f", "strided", "readonly"] + ([] if kind == "range" else ["list"])
+    shape = rng.choice(factor_shapes(len(pts)))
+    # eps = 0: on the ladder the only band is the rounding bound the driver derives from the exact inputs
+    return [spec, pts_sx(pts, shape), 0, bool(exact), rng.choice(layouts)]
+
+
+# exact mirror of the prescribed motions (only used to PLACE test points around the final region)
+
+def poly_center_frac(vs):
+    closed = len(vs) > 1 and vs[0] == vs[-1]
+    core = vs[:-1] if closed else vs
+    n = len(core)
+    mx, my = sum(v[0] for v in core) / n, sum(v[1] for v in core) / n
+    o = [(x - mx, y - my) for x, y in vs]
+    a2 = sum(a[0] * b[1] - a[1] * b[0] for a, b in zip(o, o[1:]))
+    if not closed:
+        a2 += o[-1][0] * o[0][1] - o[-1][1] * o[0][0]
+    if a2 == 0 or len(vs) == 3:
+        return mx, my
+    oc = [(x - mx, y - my) for x, y in core]
+    sx_ = sy_ = Fraction(0)
+    for a, b in zip([oc[-1]] + oc[:-1], oc):
+        d = a[0] * b[1] - a[1] * b[0]
+        sx_ += (a[0] + b[0]) * d
+        sy_ += (a[1] + b[1]) * d
+    return sx_ / (3 * a2) + mx, sy_ / (3 * a2) + my
+
+
+def final_spec(spec, ops):
+    """the region the prescribed rigid motions lead to (exact rationals, then rounded to doubles)."""
+    k = spec[0]
+    if k == "poly":
+        vs = [(frac(v[0]), frac(v[1])) for v in spec[1:]]
+        cur = (Fraction(1), Fraction(0))
+        for o in ops:
+            if o == "rt":
+                cur = (Fraction(1), Fraction(0))
+            if not isinstance(o, list):
+                continue
+            ctr = poly_center_frac(vs)
+            if o[0] == "move":
+                dx, dy = frac(o[1]) - ctr[0], frac(o[2]) - ctr[1]
+                vs = [(x + dx, y + dy) for x, y in vs]
+            elif o[0] == "rot":
+                c, s_ = frac(o[1]), frac(o[2])
+                dc, ds = c * cur[0] + s_ * cur[1], s_ * cur[0] - c * cur[1]
+                if not (dc == 1 and ds == 0):
+                    vs = [(dc * (x - ctr[0]) - ds * (y - ctr[1]) + ctr[0], ds * (x - ctr[0]) + dc * (y - ctr[1]) + ctr[1]) for x, y in vs]
+                cur = (c, s_)
+        return ["poly"] + [[qx(float(x)), qx(float(y))] for x, y in vs]
+    out = list(spec)
+    for o in ops:
+        if not isinstance(o, list):
+            continue
+        if o[0] == "move":
+            tx, ty = frac(o[1]), frac(o[2])
+            if k == "rect":
+                w, h = frac(out[2]) - frac(out[1]), frac(out[4]) - frac(out[3])
+                out[1:5] = [qx(float(tx - w / 2)), qx(float(tx + w / 2)), qx(float(ty - h / 2)), qx(float(ty + h / 2))]
+            elif k == "range":
+                t = tx if out[1] == "x" else ty
+                w = frac(out[3]) - frac(out[2])
+                out[2:4] = [qx(float(t - w / 2)), qx(float(t + w / 2))]
+            else:
+                out[1:3] = [qx(tx), qx(ty)]
+        elif o[0] == "rot" and k in ("rect", "ellipse"):
+            out[-3:] = o[1:4]
+    return out
+
+
+def lad_ops_case(rng, kind, first=None, ratio=None, n_bnd=20):
+    iso = kind in ("circle", "annulus")
+    # polygons: |centre| <= 2^30 * smallest size keeps the area of every non-degenerate lattice polygon far above
+    # the rounding threshold of center() (1e-12 extent^2 + 4 n eps |v| extent after F23)
+    ratio = ratio if ratio is not None else (30 if kind == "poly" else 34)
+    frame = lad_frame(rng, False, iso=iso, ratio=ratio, max_aspect=20)
+    cx, cy, Sx, Sy = frame
+    spec, _ = lad_region(rng, kind, frame, False)
+    if not spec_rep(spec):
+        return None
+    lim = min(Sx, Sy) * 2 ** ratio
+    cands = [c for c in LAD_CENTRES if abs(c) <= lim]
+    cands = cands + cands[-4:]
+    ops = list(first or [])
+    for _ in range(rng.randint(0 if first else 1, 4 - len(ops))):
+        c = rng.random()
+        if c < 0.5:
+            # target = ladder centre + an odd number of eighths of the size (many significant bits: a
+            # displacement computed in single precision, or with an absolute tolerance, goes wrong)
+            tx = rng.choice(cands) + Fraction(2 * rng.randint(-4, 3) + 1, 8) * Sx
+            ty = rng.choice(cands) + Fraction(2 * rng.randint(-4, 3) + 1, 8) * Sy
+            if not (rep(tx) and rep(ty)):
+                continue
+            ops.append(["move", qx(tx), qx(ty)])
+        elif c < 0.75 and kind in ("rect", "ellipse", "poly"):
+            ops.append(["rot"] + pick_rot(rng, rng.choice(["q", "p", "p", "t"])))
+        elif c < 0.83:
+            ops.append("copy")
+        elif c < 0.92:
+            ops.append("rt")
+        else:
+            ops.append("fork")
+    fin = final_spec(spec, ops)
+    fcx, fcy, _ = roi_extent(fin)
+    if kind == "poly":
+        fc = poly_center_frac([(frac(v[0]), frac(v[1])) for v in fin[1:]])
+        fcx, fcy = float(fc[0]), float(fc[1])
+    fframe = (Fraction(fcx), Fraction(fcy), Sx, Sy)
+    pts = lad_points_band(rng, fin, fframe, n_bnd=n_bnd, n_rand=12, specials=False)
+    # around the centres visited earlier (the region must have left them)
+    for o in [["move", qx(cx), qx(cy)]] + [o for o in ops if isinstance(o, list) and o[0] == "move"][:-1]:
+        pts.append((fl(o[1]) + 0.3 * float(Sx), fl(o[2]) - 0.2 * float(Sy)))
+    return [spec, ops, pts_sx(pts, (len(pts),)), 0, 0]
+
+
+def lad_proj_case(rng, exact):
+    """screen = alpha * (world - W) + c with power-of-two alpha: the world frame has its own ladder size and
+    offset, so the translation column cancels a large term exactly when honest doubles are used."""
+    kind = rng.choice(["rect", "circle", "ellipse", "poly", "range", "annulus"])
+    iso = kind in ("circle", "annulus")
+    frame = lad_frame(rng, exact, iso=iso, ratio=30, max_aspect=12)
+    cx, cy, Sx, Sy = frame
+    spec, special = lad_region(rng, kind, frame, exact)
+    if not spec_rep(spec):
+        return None
+    Ws = Fraction(2) ** rng.choice(LAD_SIZE_EXP)
+    wc = [c for c in LAD_CENTRES if abs(c) <= Ws * 2 ** 30 and (c == 0 or abs(c) >= Ws / 16)]
+    W = [rng.choice(wc) + Fraction(rng.randint(-4, 4), 8) * Ws for _ in range(3)]
+    w = rng.choice([1, 1, 2, 4])
+    ax, ay = Sx / Ws, Sy / Ws
+    perm = rng.choice([(0, 1, 2), (1, 0, 2), (2, 1, 0), (0, 2, 1)])      # which world axis feeds screen x, y, depth
+    M = [Fraction(0)] * 16
+    M[0 + perm[0]] = w * ax
+    M[3] = w * (cx - ax * W[perm[0]])
+    M[4 + perm[1]] = w * ay
+    M[7] = w * (cy - ay * W[perm[1]])
+    M[8 + perm[2]] = Fraction(1)
+    M[15] = Fraction(w)
+    if not exact:
+        # shear and perspective: not exact any more, the driver bounds the rounding error per point
+        M[0 + perm[1]] += w * ax * Fraction(rng.randint(-2, 2), 4)
+        M[4 + perm[2]] += w * ay * Fraction(rng.randint(-2, 2), 8)
+        if rng.random() < 0.5:
+            M[12 + perm[2]] = Fraction(rng.choice([1, -1]), 8) / Ws
+    if not all(rep(m) for m in M):
+        return None
+    pts = []
+    if exact:
+        ks = [(round(-20 + 40 * i / 4), round(-20 + 40 * j / 4)) for j in range(5) for i in range(5)]
+        ks += [(rng.randint(-24, 24), rng.randint(-24, 24)) for _ in range(6)]
+        for kx, ky in special:
+            ks += [(kx, ky), (kx + rng.choice([-1, 1]), ky)]
+        for kx, ky in ks:
+            q = [None] * 3
+            q[perm[0]] = W[perm[0]] + kx * Ws / 16
+            q[perm[1]] = W[perm[1]] + ky * Ws / 16
+            q[perm[2]] = W[perm[2]] + Fraction(rng.randint(-16, 16), 8) * Ws
+            # every product and every partial sum of the two dot products must be representable
+            sxv = [M[j] * q[j] for j in range(3)] + [M[3]]
+            syv = [M[4 + j] * q[j] for j in range(3)] + [M[7]]
+            if all(rep(v) for v in q) and all(rep(v) for v in sxv + syv) and rep(sum(sxv)) and rep(sum(syv)) and \
+                    rep(sum(sxv) / w) and rep(sum(syv) / w):
+                pts.append([float(v) for v in q])
+    else:
+        for _ in range(30):
+            sxy = (cx + Fraction(rng.randint(-24, 24), 16) * Sx, cy + Fraction(rng.randint(-24, 24), 16) * Sy)
+            q3 = None
+            v = solve4(M, [sxy[0] * w, sxy[1] * w, W[perm[2]] + Fraction(rng.randint(-16, 16), 8) * Ws, w])
+            if v is not None and v[3] != 0:
+                q3 = [float(v[i] / v[3]) for i in range(3)]
+            if q3 is not None and all(math.isfinite(t) for t in q3):
+                pts.append(q3)
+    if rng.random() < 0.2:
+        pts.append([float("nan"), float(W[1]), float(W[2])])
+        pts.append([float(W[0]), float(W[1]), float("inf")])
+    if not pts:
+        return None
+    shape = rng.choice(factor_shapes(len(pts)))
+    return [spec, [qx(m) for m in M], ["pts3", list(shape)] + [[qx(a), qx(b), qx(c)] for a, b, c in pts], 0, bool(exact),
+            rng.choice(["c", "f", "list"])]
+
+
 def pts_sx(pts, shape):
     return ["pts", list(shape)] + [[qx(x), qx(y)] for x, y in pts]
 
@@ -514,10 +941,10 @@ class Contains(Family):
 
     def one(self, rng, kind, mode, big=False):
         spec = GENS[kind](rng, mode)
-        scale = roi_scale(spec)
+        eps, feps = band_eps(spec)
         exact = exact_ok(spec, mode)
-        eps = Fraction(0) if exact else scale * Fraction(1, 10 ** 6)
-        pts = sample_points(spec, rng, mode, eps=float(eps) if eps else float(scale) * 1e-6,
+        eps = Fraction(0) if exact else eps
+        pts = sample_points(spec, rng, mode, eps=feps,
                             n_grid=rng.choice([3, 5, 7]), n_bnd=rng.choice([6, 16]), n_rand=rng.choice([0, 8]),
                             specials=rng.random() < 0.7)
         if exact:
@@ -547,20 +974,20 @@ class Contains(Family):
             for k in (0,) if tier == "quick" else (0, 1, -2):
                 for spec in (["rect", -2, 6, 1, 4, qx(c), qx(s), k], ["rect", qx(Fraction(-7, 8)), qx(Fraction(1, 8)), 0, 16, qx(c), qx(s), k],
                              ["ellipse", 1, -1, 4, 2, qx(c), qx(s), k], ["ellipse", 0, 0, qx(Fraction(1, 8)), 5, qx(c), qx(s), k]):
-                    scale = roi_scale(spec)
+                    eps, feps = band_eps(spec)
                     exact = exact_ok(spec, "dy")
-                    eps = Fraction(0) if exact else scale * Fraction(1, 10 ** 6)
-                    pts = sample_points(spec, rng2, "dy", n_grid=7, n_bnd=16, eps=float(scale) * 1e-6, specials=False)
+                    eps = Fraction(0) if exact else eps
+                    pts = sample_points(spec, rng2, "dy", n_grid=7, n_bnd=16, eps=feps, specials=False)
                     if not exact:
-                        pts += boundary_points(spec, 16, rng2, float(scale) * 1e-6)
+                        pts += boundary_points(spec, 16, rng2, feps)
                     yield [spec, pts_sx(pts, (len(pts),)), qx(eps), exact, "c"]
         # scalar / 0-d / empty inputs
         for kind in ("rect", "circle", "ellipse", "annulus", "range", "poly"):
             spec = GENS[kind](rng, "dy")
             cx, cy, _ = roi_extent(spec)
             p = (float(math.floor(cx * 8) / 8), float(math.floor(cy * 8) / 8))
-            yield [spec, pts_sx([p], ()), qx(roi_scale(spec) * Fraction(1, 10 ** 6)), False, "scalar"]
-            yield [spec, pts_sx([p], ()), qx(roi_scale(spec) * Fraction(1, 10 ** 6)), False, "0d"]
+            yield [spec, pts_sx([p], ()), qx(band_eps(spec)[0]), False, "scalar"]
+            yield [spec, pts_sx([p], ()), qx(band_eps(spec)[0]), False, "0d"]
             yield [spec, pts_sx([], (0,)), 0, False, "c"]
             yield [spec, pts_sx([], (2, 0)), 0, False, "c"]
         # broadcast views: x varies along the last axis, y along the first (np.broadcast_to, stride 0)
@@ -578,15 +1005,27 @@ class Contains(Family):
             dxs = Fraction(max(1, math.ceil(2.4 * rad * 4 / max(nx - 1, 1))), 4)
             dys = Fraction(max(1, math.ceil(2.4 * rad * 4 / max(ny - 1, 1))), 4)
             exact = exact_ok(spec, mode) and float(x0) == x0
-            eps = Fraction(0) if exact else roi_scale(spec) * Fraction(1, 10 ** 6)
+            eps = Fraction(0) if exact else band_eps(spec)[0]
             g = ["grid", qx(x0), qx(dxs), nx, qx(y0), qx(dys), ny]
             if rng.random() < 0.4:
                 # x and y both constant along a leading axis of length k (both stride 0 there)
                 yield [spec, ["rep", rng.randint(1, 3), g], qx(eps), exact, "bcast3"]
             else:
                 yield [spec, g, qx(eps), exact, rng.choice(["bcast", "bcast", "meshgrid", "bcast-x"])]
+        # magnitude / offset ladder: exact lattice cases (boundary included) and arbitrary-double band cases
+        for i, (c, s) in enumerate(ALL_ROTS):
+            for k in (0,) if tier == "quick" else (0, 1, -2):
+                for kind in ("rect", "ellipse"):
+                    case = lad_contains_case(rng, kind, False, rot=[qx(c), qx(s), k])
+                    if case is not None:
+                        yield case
+        nl = 800 if tier == "quick" else 8000
+        for i in range(nl):
+            case = lad_contains_case(rng, LAD_KINDS[i % len(LAD_KINDS)], exact=(i % 2 == 0))
+            if case is not None:
+                yield case
         # random regions of every class
-        nr = 3000 if tier == "quick" else 30000
+        nr = 2600 if tier == "quick" else 27000
         for i in range(nr):
             kind = ("rect", "rect", "ellipse", "ellipse", "poly", "poly", "circle", "annulus", "range")[i % 9]
             mode = "dy" if rng.random() < 0.55 else "fl"
@@ -597,7 +1036,7 @@ class Contains(Family):
                             (["poly", [100, 100], [900, 200], [500, 300], [800, 900], [200, 800]], 420),
                             (["rect", 100, 900, 200, 700, ["q", 3, 5], ["q", 4, 5], 0], 400)):
                 exact = exact_ok(spec, "dy")
-                eps = Fraction(0) if exact else Fraction(1, 1000)
+                eps = Fraction(0) if exact else band_eps(spec)[0]
                 yield [spec, ["grid", 0, 1, n, 0, 1, n], qx(eps), exact, "meshgrid"]
 
     def run_impl(self, case):
@@ -697,10 +1136,9 @@ class Ops(Family):
         return self.finish(rng, spec, ops, mode)
 
     def finish(self, rng, spec, ops, mode):
-        scale = roi_scale(spec)
-        for o in ops:
-            if isinstance(o, list) and o[0] == "move":
-                scale = max(scale, roi_scale(["circle", o[1], o[2], 0]))
+        # band and centre tolerance relative to the region's own size; the driver adds the rounding bound
+        # 2^-44 * (#ops + 1) * (largest visited |centre| + size) * kappa^2 from the exact inputs
+        scale = roi_size(spec)
         eps = scale * Fraction(1, 10 ** 6)
         # test points around every centre the region visits
         cx, cy, rad = roi_extent(spec)
@@ -750,7 +1188,31 @@ class Ops(Family):
                 yield self.finish(rng, spec, [["rot", qx(c), qx(s), 0]], "dy")
                 if tier == "thorough":
                     yield self.finish(rng, spec, [["move", 3, -2], ["rot", qx(c), qx(s), 1], ["move", 0, 0]], "dy")
-        n = 2000 if tier == "quick" else 20000
+        # magnitude / offset ladder
+        for i, (c, s) in enumerate(ALL_ROTS):
+            for kind in ("poly", ("rect", "ellipse")[i % 2]) if tier == "quick" else ("poly", "rect", "ellipse", "poly"):
+                case = lad_ops_case(rng, kind, first=[["rot", qx(c), qx(s), 0]])
+                if case is not None:
+                    yield case
+        # small turns (2 atan 2^-k, both directions) away from every quarter turn, region near the origin
+        # relative to its size (tight rounding bound): a rotate_to that is skipped, or a branch that is taken,
+        # for an angle below an absolute threshold moves the boundary by angle * size
+        for m in range(4):
+            for k in (8, 16, 24, 28, 30, 32, 34, 40, 50):
+                for sg in (1, -1):
+                    t = Fraction(1, 2 ** k)
+                    c, s = turn(((1 - t * t) / (1 + t * t), sg * 2 * t / (1 + t * t)), m)
+                    qc, qs = turn((Fraction(1), Fraction(0)), m)
+                    first = ([["rot", qx(qc), qx(qs), 0]] if m else []) + [["rot", qx(c), qx(s), 0]]
+                    for kind in ("poly",) if tier == "quick" else ("poly", "rect", "ellipse", "poly"):
+                        case = lad_ops_case(rng, kind, first=first, ratio=4, n_bnd=40)
+                        if case is not None:
+                            yield case
+        for i in range(400 if tier == "quick" else 4500):
+            case = lad_ops_case(rng, LAD_KINDS[i % len(LAD_KINDS)])
+            if case is not None:
+                yield case
+        n = 1700 if tier == "quick" else 18000
         kinds = ("rect", "ellipse", "poly", "poly", "rect", "circle", "annulus", "range", "poly")
         for i in range(n):
             kind = kinds[i % len(kinds)]
@@ -806,7 +1268,16 @@ class Ops(Family):
         kinds = sorted(set(o if isinstance(o, str) else o[0] for o in ops))
         closed = case[0][0] == "poly" and len(case[0]) > 2 and case[0][1] == case[0][-1]
         half = any(isinstance(o, list) and o[0] == "rot" and o[1] == -1 and o[2] == 0 for o in ops)
-        return {"class": case[0][0], "ops": "+".join(kinds), "closed-polygon": closed, "half-turn": half}
+        sig = {"class": case[0][0], "ops": "+".join(kinds), "closed-polygon": closed, "half-turn": half}
+        if case[0][0] == "poly" and len(case[0]) > 4:
+            # a polygon whose signed area is exactly zero (bow-tie, collinear vertices) that is turned and moved afterwards
+            vs = [(frac(v[0]), frac(v[1])) for v in case[0][1:]]
+            a2 = sum(a[0] * b[1] - a[1] * b[0] for a, b in zip(vs, vs[1:] + vs[:1]))
+            rots = [i for i, o in enumerate(ops) if isinstance(o, list) and o[0] == "rot" and not (o[1] == 1 and o[2] == 0)]
+            moves = [i for i, o in enumerate(ops) if isinstance(o, list) and o[0] == "move"]
+            sig["zero-area"] = (a2 == 0)
+            sig["rot-then-move"] = bool(rots and moves and rots[0] < moves[-1])
+        return sig
 
     def shrink(self, case):
         spec, ops, ptsd, eps, tol = case
@@ -895,11 +1366,15 @@ class Proj(Family):
                 pts.append([1.0, 1.0, float("-inf")])
             affine = M[12:] == [0, 0, 0, 1] or M[12:] == [0, 0, 0, 2] or M[12:] == [0, 0, 0, 4]
             exact = exact_ok(spec, "dy") and affine
-            scale = max(roi_scale(spec), Fraction(64))
-            eps = Fraction(0) if exact else scale * Fraction(1, 10 ** 6)
+            eps = Fraction(0) if exact else band_eps(spec)[0]
             shape = rng.choice(factor_shapes(len(pts)))
             yield [spec, [qx(m) for m in M], ["pts3", list(shape)] + [[qx(a), qx(b), qx(c)] for a, b, c in pts], qx(eps), exact,
                    rng.choice(["c", "f", "list"])]
+        # magnitude / offset ladder
+        for i in range(200 if tier == "quick" else 1600):
+            case = lad_proj_case(rng, exact=(i % 2 == 0))
+            if case is not None:
+                yield case
         # grids as broadcast views, 3-d
         for i in range(20 if tier == "quick" else 200):
             spec = GENS[rng.choice(["rect", "circle", "poly"])](rng, "dy")
@@ -908,7 +1383,7 @@ class Proj(Family):
             cx, cy, rad = roi_extent(spec)
             g = ["grid3", qx(Fraction(math.floor(cx - rad - 1))), qx(Fraction(max(1, math.ceil(2 * rad + 2)), max(nx - 1, 1) * 2) * 2), nx,
                  qx(Fraction(math.floor(cy - rad - 1))), qx(Fraction(max(1, math.ceil(2 * rad + 2)), max(ny - 1, 1) * 2) * 2), ny, -1, 1, nz]
-            yield [spec, [qx(m) for m in M], g, qx(max(roi_scale(spec), Fraction(64)) * Fraction(1, 10 ** 6)), False, rng.choice(["bcast", "c"])]
+            yield [spec, [qx(m) for m in M], g, qx(band_eps(spec)[0]), False, rng.choice(["bcast", "c"])]
         if tier == "thorough":
             # > 10^6 points: iterate_chunks(n_max=10**6) needs several chunks
             for spec, M, dims in ((["circle", 500, 500, 300], "identity", (110, 100, 100)),
@@ -968,8 +1443,39 @@ class Disc(Family):
     batch = 6
     budget_share = 1.2
 
+    def ladder(self, rng, kind):
+        iso = kind in ("circle", "annulus")
+        frame = lad_frame(rng, False, iso=iso, max_aspect=10)
+        spec, _ = lad_region(rng, kind, frame, False)
+        if not spec_rep(spec):
+            return None
+        if kind == "annulus" and fl(spec[3]) > 0.98 * fl(spec[4]):
+            return None
+        cx, cy, Sx, Sy = [float(v) for v in frame]
+        pts = []
+        for _ in range(40):
+            a = rng.uniform(0, 2 * math.pi)
+            f = rng.choice([0, 0.3, 0.9, 0.99, 0.9993, 0.9996, 1.0, 1.0007, 1.01, 1.5])
+            if kind == "ellipse":
+                rx, ry = fl(spec[3]), fl(spec[4])
+                c, s = float(frac(spec[5])), float(frac(spec[6]))
+                u, v = f * rx * math.cos(a), f * ry * math.sin(a)
+                pts.append((cx + c * u - s * v, cy + s * u + c * v))
+            elif kind == "annulus":
+                r = fl(spec[3]) if rng.random() < 0.5 else fl(spec[4])
+                pts.append((cx + f * r * math.cos(a), cy + f * r * math.sin(a)))
+            elif kind == "circle":
+                pts.append((cx + f * fl(spec[3]) * math.cos(a), cy + f * fl(spec[3]) * math.sin(a)))
+            else:
+                pts.append((cx + rng.uniform(-1.2, 1.2) * max(Sx, Sy), cy + rng.uniform(-1.2, 1.2) * max(Sx, Sy)))
+        return [spec, pts_sx(pts, (len(pts),)), 0]
+
     def cases(self, tier, rng):
-        n = 80 if tier == "quick" else 500
+        for i in range(50 if tier == "quick" else 400):
+            case = self.ladder(rng, ("circle", "ellipse", "annulus", "rect", "ellipse")[i % 5])
+            if case is not None:
+                yield case
+        n = 60 if tier == "quick" else 450
         for i in range(n):
             kind = ("circle", "ellipse", "annulus", "rect", "ellipse")[i % 5]
             mode = "dy" if rng.random() < 0.5 else "fl"
@@ -993,8 +1499,7 @@ class Disc(Family):
                     pts.append((cx + f * r * math.cos(a), cy + f * r * math.sin(a)))
                 else:
                     pts.append((cx + f * rad * math.cos(a), cy + f * rad * math.sin(a)))
-            scale = roi_scale(spec)
-            yield [spec, pts_sx(pts, (len(pts),)), qx(scale * Fraction(1, 10 ** 6))]
+            yield [spec, pts_sx(pts, (len(pts),)), qx(band_eps(spec)[0])]
 
     def run_impl(self, case):
         spec, ptsd, _eps = case
@@ -1080,6 +1585,8 @@ THEOREMS = [
     "C08.restore_same",
     "C08.shape_independent",
     "C08.projected_chunking",
+    "C08.contains_scale_equivariant",
+    "C08.contains_translate_equivariant",
 ]
 
 PROP = Property(
